@@ -183,3 +183,88 @@ pub fn size_class(n: usize) -> &'static str {
         _ => "xl",
     }
 }
+
+/// Build a TCP frame on `flow` (client -> responder) for auxiliary executions.
+pub fn mk_tcp(
+    flow: &crate::wire::FlowKey,
+    smac: &crate::wire::Mac,
+    dmac: &crate::wire::Mac,
+    seq: u32,
+    ack: u32,
+    flags: u16,
+    payload: &[u8],
+) -> Vec<u8> {
+    use crate::wire::*;
+    let f = TcpFields {
+        sport: flow.sport,
+        dport: flow.dport,
+        seq,
+        ack,
+        flags,
+        window: 8192,
+        urg: 0,
+        options: Vec::new(),
+    };
+    let seg = tcp(&f, payload, &flow.src, &flow.dst);
+    frame_ip(dmac, smac, &flow.src, &flow.dst, P_TCP, &seg, 64)
+}
+
+/// Deliver `stream` on a fresh copy of `flow` cut at `cuts` (ascending stream offsets) on the
+/// auxiliary node; returns per segment (end offset, application bytes of the reply or None).
+pub fn aux_stream(
+    aux: &mut Aux,
+    cfg: &crate::node::Config,
+    clock: u64,
+    flow: &crate::wire::FlowKey,
+    smac: &crate::wire::Mac,
+    dmac: &crate::wire::Mac,
+    cookie: u32,
+    stream: &[u8],
+    cuts: &[usize],
+) -> Option<Vec<(usize, Option<Vec<u8>>)>> {
+    use crate::exec::Step;
+    use crate::wire::*;
+    let mut steps = vec![Step::Clock(clock)];
+    let isn = 0x0100_0000u32;
+    let mut prev = 0usize;
+    let mut ends = Vec::new();
+    for c in cuts.iter().copied().chain(std::iter::once(stream.len())) {
+        if c <= prev || c > stream.len() {
+            continue;
+        }
+        steps.push(Step::Frame(mk_tcp(
+            flow,
+            smac,
+            dmac,
+            isn.wrapping_add(1 + prev as u32),
+            cookie.wrapping_add(1),
+            F_PSH | F_ACK,
+            &stream[prev..c],
+        )));
+        ends.push(c);
+        prev = c;
+    }
+    let h = match aux.exec.run(cfg, clock, &aux.nonce, &steps) {
+        Ok(h) => h,
+        Err(e) => {
+            aux.harness_error = Some(format!("{:?}", e));
+            return None;
+        }
+    };
+    if h.death.is_some() {
+        return None;
+    }
+    let mut out = Vec::new();
+    let mut k = 0;
+    for r in &h.recs {
+        if let (Step::Frame(_), Some(o)) = (&r.step, &r.obs) {
+            let app = o.reply.as_ref().and_then(|raw| {
+                let p = parse(raw);
+                p.tcp().map(|t| raw[t.pay_off..t.pay_off + t.pay_len].to_vec())
+            });
+            out.push((ends[k], app));
+            k += 1;
+        }
+    }
+    Some(out)
+}
